@@ -985,12 +985,11 @@ func (t *txattrwalk) handle(cs *connState) message {
 	}
 	defer ref.DecRef()
 
-	size := 0
+	var buf []byte
 	if err := ref.safelyRead(func() error {
 		if ref.isDeleted() {
 			return linux.EINVAL
 		}
-		var buf []byte
 		var err error
 		if len(t.Name) > 0 {
 			buf, err = ref.file.GetXattr(t.Name)
@@ -1011,23 +1010,28 @@ func (t *txattrwalk) handle(cs *connState) message {
 		if uint32(len(buf)) > maximumLength {
 			return linux.EINVAL
 		}
-		size = len(buf)
-		newRef := &fidRef{
-			server: cs.server,
-			file:   ref.file,
-			pendingXattr: pendingXattr{
-				op:   xattrWalk,
-				name: t.Name,
-				size: uint64(size),
-				buf:  buf,
-			},
-			pathNode: ref.pathNode,
-		}
-		cs.InsertFID(t.newFID, newRef)
 		return nil
 	}); err != nil {
 		return newErr(err)
 	}
+
+	// The new fid is clunked independently of t.fid, and dropping its last
+	// reference closes its File: it needs a File of its own, tracked in the
+	// path tree like any other, not ref.file, which stays bound to t.fid.
+	// That is exactly what a zero-name walk produces.
+	_, newRef, _, _, err := doWalk(cs, ref, nil, false)
+	if err != nil {
+		return newErr(err)
+	}
+	defer newRef.DecRef()
+	size := len(buf)
+	newRef.pendingXattr = pendingXattr{
+		op:   xattrWalk,
+		name: t.Name,
+		size: uint64(size),
+		buf:  buf,
+	}
+	cs.InsertFID(t.newFID, newRef)
 	return &rxattrwalk{Size: uint64(size)}
 }
 
